@@ -284,7 +284,7 @@ def cnt_read(ctx):
         if pp and pp[0] == 1 and not (set(iter_adaptors(src)) & LOSSY_ADAPTORS) and clo:
             n, cl = clo[0]
             if cl and cl[0] == 'closure':
-                cr = versionless(interp(facts, facts.cb(cl[1])).ret)
+                cr = versionless(strip_lossless(interp(facts, facts.cb(cl[1])).ret))
                 ok = cr == ('field', ('param', 2), 'counter')
     if not ok and is_call(r, 'fold') and len(r[2]) == 3 and r[2][2][0] == 'closure':
         # fold form: every counter of inner (the dots of inner.iter(), or the values of inner.dots) added to a zero total
@@ -317,7 +317,7 @@ def cnt_read(ctx):
         def step_ok(c, lp):
             if call_name(c.term) != 'add_assign' or len(c.args) != 2:
                 return False
-            v = versionless(c.args[1].val)
+            v = versionless(strip_lossless(c.args[1].val))
             return v[0] == 'field' and v[2] == 'counter' and as_item(v[1]) is not None and item_derived(c.args[1].val, lp)
         ok = accumulates(facts, body, raw, init_ok, src_ok, step_ok)
     ctx.check(ok, 'GCounter::read', body, 'sum of the counters of every dot', 'GCounter::read is %s, expected the sum of every dot counter of inner' % fmt(r, 5))
